@@ -6,7 +6,9 @@ export CARGO_NET_OFFLINE=true
 python3 tools/logtable.py >/dev/null   # C20: regenerate Bgpfu/Model/LogTableGen.lean from /repo
 (cd lean && lake build Bgpfu modeld)
 (cd harness && cargo build --offline)
-# C20 runs the real agent binary (built into our own target dir, /repo is not written to)
+# C20 and the e2e op run the real agent binary (built into our own target dir, /repo is not written to);
+# e2e c02 runs the release-profile binary
 cargo build --offline --manifest-path /repo/Cargo.toml -p bgpfu-junos-agent --target-dir "$(pwd)/repo-target" >/dev/null 2>&1 || echo "warning: agent binary not built (C20 will try again)"
+cargo build --offline --release --manifest-path /repo/Cargo.toml -p bgpfu-junos-agent --target-dir "$(pwd)/repo-target" >/dev/null 2>&1 || echo "warning: release agent binary not built (C02 will try again)"
 mkdir -p evidence replays work
 echo setup-ok
